@@ -1,17 +1,17 @@
 package sym
 
 import (
-	"time"
-	"sync"
-	"runtime/debug"
 	"fmt"
 	"go/token"
 	"go/types"
 	"os"
 	"os/exec"
 	"path/filepath"
+	"runtime/debug"
 	"sort"
 	"strings"
+	"sync"
+	"time"
 
 	"golang.org/x/tools/go/packages"
 	"golang.org/x/tools/go/ssa"
@@ -22,12 +22,12 @@ type intrinsicFn func(fr *frame, args []Value) Value
 
 // Program is the loaded, SSA-built code under analysis plus the engine's tables.
 type Program struct {
-	prog     *ssa.Program
-	pkgs     []*packages.Package
-	byPath   map[string]*ssa.Package
-	sizes    types.Sizes
-	RepoMod  string
-	RepoDir  string
+	prog    *ssa.Program
+	pkgs    []*packages.Package
+	byPath  map[string]*ssa.Package
+	sizes   types.Sizes
+	RepoMod string
+	RepoDir string
 
 	intrinsics      map[string]intrinsicFn
 	verifIntrinsics map[string]intrinsicFn
@@ -36,13 +36,14 @@ type Program struct {
 	errorStringPtr     types.Type // *errors.errorString
 	wrapErrorPtr       types.Type // *fmt.wrapError
 
-	sharedGlobals map[*ssa.Global]*Value
-	initRun       map[*ssa.Package]bool
-	initFailed    map[*ssa.Package]bool
-	sharedMu      sync.RWMutex
-	lazyMu        sync.Mutex
-	initStores    map[*ssa.Global]bool
-	perPathPkgs   []*ssa.Package
+	sharedGlobals  map[*ssa.Global]*Value
+	initRun        map[*ssa.Package]bool
+	initFailed     map[*ssa.Package]bool
+	sharedMu       sync.RWMutex
+	lazyMu         sync.Mutex
+	initStoresOnce sync.Once
+	initStores     map[*ssa.Global]bool
+	perPathPkgs    []*ssa.Package
 
 	LoadSeconds float64
 	Warnings    []string
@@ -69,7 +70,12 @@ type ModelSpec struct {
 
 // hasInitializer reports whether the package initialiser assigns the global.
 func (p *Program) hasInitializer(g *ssa.Global) bool {
-	if p.initStores == nil {
+	p.initStoresOnce.Do(p.computeInitStores)
+	return p.initStores[g]
+}
+
+func (p *Program) computeInitStores() {
+	{
 		p.initStores = map[*ssa.Global]bool{}
 		for _, sp := range p.prog.AllPackages() {
 			init := sp.Func("init")
@@ -99,7 +105,6 @@ func (p *Program) hasInitializer(g *ssa.Global) bool {
 			}
 		}
 	}
-	return p.initStores[g]
 }
 
 var sharedInitPkgs = []string{
@@ -128,7 +133,7 @@ func (p *Program) lazyInit(sp *ssa.Package) bool {
 	if p.initFailed[sp] {
 		return false
 	}
-	boot := &Machine{P: p, cfg: DefaultConfig()}
+	boot := &Machine{P: p, cfg: DefaultConfig(), lazyBoot: true}
 	ok := true
 	func() {
 		defer func() {
@@ -319,7 +324,8 @@ func Load(opts LoadOptions) (*Program, error) {
 	func() {
 		defer func() {
 			if r := recover(); r != nil {
-				bootErr = fmt.Errorf("shared init failed: %v", r); _ = debug.Stack
+				bootErr = fmt.Errorf("shared init failed: %v", r)
+				_ = debug.Stack
 			}
 		}()
 		saved := p.perPathPkgs
